@@ -292,6 +292,22 @@ class ACCParallelDirective(ACCRegionDirective):
         super().__init__(**kwargs)
         self.default_present = default_present
 
+    def validate_global_constraints(self):
+        '''
+        Perform validation checks that can only be done at code-generation
+        time.
+
+        :raises GenerationError: if this directive is within another
+            OpenACC parallel or kernels region.
+
+        '''
+        if self.ancestor((ACCParallelDirective, ACCKernelsDirective)):
+            raise GenerationError(
+                f"{type(self).__name__} cannot be nested inside another "
+                f"OpenACC parallel or kernels region.")
+
+        super().validate_global_constraints()
+
     def gen_code(self, parent):
         '''
         Generate the elements of the f2pygen AST for this Node in the Schedule.
@@ -639,6 +655,22 @@ class ACCKernelsDirective(ACCRegionDirective):
         :rtype: bool
         '''
         return self._default_present
+
+    def validate_global_constraints(self):
+        '''
+        Perform validation checks that can only be done at code-generation
+        time.
+
+        :raises GenerationError: if this directive is within another
+            OpenACC parallel or kernels region.
+
+        '''
+        if self.ancestor((ACCParallelDirective, ACCKernelsDirective)):
+            raise GenerationError(
+                f"{type(self).__name__} cannot be nested inside another "
+                f"OpenACC parallel or kernels region.")
+
+        super().validate_global_constraints()
 
     def gen_code(self, parent):
         '''
